@@ -557,11 +557,18 @@ def run_case(ctx, case):
                                     continue
                             helper = helpers.get(ident[0], '1')
                             fx = rng_fixed(rng)
+                            # a requester without a grant may also write the identifier another way (leading zero, sign, blank,
+                            # fraction - spellings the database resolves to the same row): the answer still tells nothing
+                            spell = (lambda u_: u_)
+                            if not ok and rng.random() < 0.3:
+                                spell = rng.choice((lambda u_: '0' + u_, lambda u_: '+' + u_, lambda u_: ' ' + u_, lambda u_: u_ + '.0',
+                                                    lambda u_: u_ + ' ', lambda u_: '00' + u_))
+                                ctx.count('denials_with_another_spelling_of_the_identifier')
                             try:
                                 req = rig.encode_request(rig.build_request(
-                                    version, [build_probe(probe, o.uid, fx, version, helper)]), version)
+                                    version, [build_probe(probe, spell(o.uid), fx, version, helper)]), version)
                                 ref = rig.encode_request(rig.build_request(
-                                    version, [build_probe(probe, NEVER, fx, version, helper)]), version)
+                                    version, [build_probe(probe, spell(NEVER), fx, version, helper)]), version)
                             except Exception:
                                 ctx.count('probe_not_encodable')
                                 continue
@@ -597,7 +604,7 @@ def run_case(ctx, case):
                             if not res.ok():
                                 rr = srv.send_bytes(ref, ident)
                                 ctx.count('denials_compared_with_never_issued')
-                                exp_msg = (rr.message() or '').replace(NEVER, o.uid)
+                                exp_msg = (rr.message() or '').replace(spell(NEVER), spell(o.uid)).replace(NEVER, o.uid)
                                 exp_reason = rr.reason()
                                 if exp_reason == E.ResultReason.ITEM_NOT_FOUND.value and \
                                         res.reason() == E.ResultReason.PERMISSION_DENIED.value:
